@@ -189,7 +189,11 @@ impl Property for C05 {
 
     fn run(&self, src: &mut Src, rep: &mut Report) -> Verdict {
         let kind = *src.pick(KINDS);
-        let nlab = 1 + src.below(4);
+        let mut nlab = 1 + src.below(4);
+        if nlab == 4 && src.chance(48) {
+            // occasionally many labels (the library imposes no limit; the pool holds 10 names)
+            nlab += src.below(7);
+        }
         let names = distinct(src, VALID_LABEL_NAMES, nlab);
         let nconst = src.below(3);
         let cnames = distinct(src, CONST_LABEL_NAMES, nconst);
